@@ -531,24 +531,23 @@ sexp sexp_scheduler (sexp ctx, sexp self, sexp_sint_t n, sexp root_thread) {
   /* check timeouts */
   if (sexp_pairp(paused)) {
     if (gettimeofday(&tval, NULL) == 0) {
-      ls1 = SEXP_NULL;
-      ls2 = paused;
-      while (sexp_pairp(ls2) && sexp_context_before(sexp_car(ls2), tval)) {
-        sexp_context_timeoutp(sexp_car(ls2)) = 1;
-        sexp_context_waitp(sexp_car(ls2)) = 0;
-        ls1 = ls2;
-        ls2 = sexp_cdr(ls2);
-      }
-      if (sexp_pairp(ls1)) {
+      while (sexp_pairp(paused) && sexp_context_before(sexp_car(paused), tval)) {
+        ls1 = paused;
+        paused = sexp_cdr(paused);
+        sexp_context_timeoutp(sexp_car(ls1)) = 1;
+        sexp_context_waitp(sexp_car(ls1)) = 0;
         sexp_cdr(ls1) = SEXP_NULL;
-        if (! sexp_pairp(sexp_global(ctx, SEXP_G_THREADS_BACK))) {
-          sexp_global(ctx, SEXP_G_THREADS_FRONT) = front = paused;
-        } else {
-          sexp_cdr(sexp_global(ctx, SEXP_G_THREADS_BACK)) = paused;
+        /* the current thread is requeued below, don't queue it twice */
+        if (sexp_car(ls1) != ctx) {
+          if (! sexp_pairp(sexp_global(ctx, SEXP_G_THREADS_BACK))) {
+            sexp_global(ctx, SEXP_G_THREADS_FRONT) = front = ls1;
+          } else {
+            sexp_cdr(sexp_global(ctx, SEXP_G_THREADS_BACK)) = ls1;
+          }
+          sexp_global(ctx, SEXP_G_THREADS_BACK) = ls1;
         }
-        sexp_global(ctx, SEXP_G_THREADS_BACK) = ls1;
-        sexp_global(ctx, SEXP_G_THREADS_PAUSED) = paused = ls2;
       }
+      sexp_global(ctx, SEXP_G_THREADS_PAUSED) = paused;
     }
   }
 
